@@ -1020,3 +1020,272 @@ pub fn g_lang(p: LangParams) -> impl Strategy<Value = GrammarSpec> {
             GrammarSpec { terms, rules: out_rules, layout: None }
         })
 }
+
+// ---------------------------------------------------------------------------------------
+// G-ast: (mostly) conflict-free grammars rich in AST type shapes
+
+pub fn ast_terms() -> Vec<TermSpec> {
+    let mut t = vec![];
+    for (n, s) in [
+        ("KwAlpha", "alpha"), ("KwBeta", "beta"), ("KwGamma", "gamma"), ("KwDelta", "delta"),
+        ("KwEta", "eta"), ("KwTheta", "theta"), ("KwIota", "iota"), ("KwKappa", "kappa"),
+        ("Comma", ","), ("Semi", ";"), ("LPar", "("), ("RPar", ")"), ("Bang", "!"), ("Colon", ":"),
+        ("Amp", "&"), ("Unused", "%"),
+    ] {
+        t.push(TermSpec::str(n, s));
+    }
+    t.push(TermSpec::regex("Num", "\\d+", &["1", "42", "007"]));
+    t.push(TermSpec::regex("Id", "[x-z]+", &["x", "yz", "zzy"]));
+    t
+}
+
+const T_KW0: usize = 0; // 8 keywords 0..8
+const T_COMMA: usize = 8;
+const T_SEMI: usize = 9;
+const T_LPAR: usize = 10;
+const T_RPAR: usize = 11;
+const T_BANG: usize = 12;
+const T_COLON: usize = 13;
+const T_AMP: usize = 14;
+const T_NUM: usize = 16;
+const T_ID: usize = 17;
+
+/// names chosen to collide after suffixing / case conversion
+const AST_NAMES: [&str; 10] = ["B", "B1", "C", "C1", "Item", "Items", "B11", "Node", "Leaf", "Opt"];
+const FIELD_NAMES: [&str; 6] = ["left", "right", "name", "value", "item", "b1"];
+const AST_KINDS: [&str; 6] = ["Add", "Sub", "First", "Second", "Third", "Neg"];
+
+fn tsym(t: usize) -> SymUse {
+    SymUse::plain(Sym::T(t))
+}
+fn tinline(t: usize, dq: bool) -> SymUse {
+    SymUse { inline: true, dquote: dq, ..SymUse::plain(Sym::T(t)) }
+}
+fn named(mut u: SymUse, name: &str, is_bool: bool) -> SymUse {
+    u.assign = Some((name.to_string(), is_bool));
+    u
+}
+
+/// Build a G-ast grammar from a tape (pure function).
+pub fn build_ast(tape: &[u16]) -> GrammarSpec {
+    let mut c = Cursor::new(tape);
+    let terms = ast_terms();
+    let nrules = 2 + c.pick(6); // body rules
+    // rule indexes: 0 = S, 1 = Stmt, 2.. = body rules
+    let first_body = 2;
+    let total = first_body + nrules;
+    let mut names: Vec<String> = vec!["S".into(), "Stmt".into()];
+    let mut avail: Vec<&str> = AST_NAMES.to_vec();
+    for _ in 0..nrules {
+        let i = c.pick(avail.len());
+        names.push(avail.remove(i).to_string());
+    }
+    let mut rules: Vec<RuleSpec> = vec![];
+    // a content item for rule i: content terminal or a later rule, occasionally an earlier rule
+    // wrapped in parentheses (mutual recursion => Box)
+    let item = |c: &mut Cursor, i: usize| -> Vec<SymUse> {
+        let later = total - i - 1;
+        let k = c.pick(3 + later);
+        match k {
+            0 => vec![tsym(T_NUM)],
+            1 => vec![tsym(T_ID)],
+            2 => {
+                if i > first_body && c.pick(2) == 0 {
+                    let j = first_body + c.pick(i - first_body + 1);
+                    vec![tinline(T_LPAR, false), SymUse::plain(Sym::N(j)), tinline(T_RPAR, true)]
+                } else {
+                    vec![tsym(T_NUM)]
+                }
+            }
+            _ => vec![SymUse::plain(Sym::N(i + 1 + (k - 3)))],
+        }
+    };
+    // S and Stmt are filled in at the end
+    rules.push(RuleSpec { name: "S".into(), annotation: None, meta: Meta::default(), alts: vec![] });
+    rules.push(RuleSpec { name: "Stmt".into(), annotation: None, meta: Meta::default(), alts: vec![] });
+    for i in first_body..total {
+        let mut kind = c.pick(12);
+        let mut annotation = None;
+        // kind 11 (enum referring twice to each of two later rules) needs two later rules
+        let later_rules: Vec<usize> = (i + 1..total).collect();
+        if kind == 11 && later_rules.len() < 2 {
+            kind = 9;
+        }
+        let kw = |k: usize| tinline(T_KW0 + (k % 8), k % 3 == 0);
+        let mut alts: Vec<AltSpec> = vec![];
+        let mk = |syms: Vec<SymUse>| AltSpec { syms, meta: Meta::default() };
+        match kind {
+            0 => {
+                // enum of terminals, maybe with kinds
+                let with_kinds = c.pick(2) == 0;
+                for (k, t) in [T_NUM, T_ID].iter().enumerate() {
+                    let mut a = mk(vec![tsym(*t)]);
+                    if with_kinds {
+                        a.meta.kind = Some(AST_KINDS[k].to_string());
+                    }
+                    alts.push(a);
+                }
+                if c.pick(3) == 0 {
+                    alts.push(mk(vec![tinline(T_AMP, false)]));
+                }
+            }
+            1 => {
+                // struct with named / unnamed fields
+                let mut syms = vec![kw(i)];
+                let n = 1 + c.pick(3);
+                let mut used: Vec<String> = vec![];
+                for _ in 0..n {
+                    let mut it = item(&mut c, i);
+                    let idx = it.len() / 2;
+                    if c.pick(2) == 0 {
+                        let mut nm = FIELD_NAMES[c.pick(FIELD_NAMES.len())].to_string();
+                        while used.contains(&nm) {
+                            nm.push('2');
+                        }
+                        used.push(nm.clone());
+                        it[idx] = named(it[idx].clone(), &nm, false);
+                    }
+                    syms.extend(it);
+                    syms.push(tinline(T_COLON, false));
+                }
+                alts.push(mk(syms));
+            }
+            2 | 3 => {
+                // @vec in both recursion directions, optionally with separator / EMPTY base
+                annotation = Some("vec".to_string());
+                let it = item(&mut c, i);
+                let sep = c.pick(3) == 0;
+                let empty_base = c.pick(3) == 0 && !sep;
+                let mut rec: Vec<SymUse> = vec![];
+                if kind == 2 {
+                    rec.push(SymUse::plain(Sym::N(i)));
+                    if sep {
+                        rec.push(tsym(T_COMMA));
+                    }
+                    rec.extend(it.clone());
+                } else {
+                    rec.extend(it.clone());
+                    if sep {
+                        rec.push(tsym(T_COMMA));
+                    }
+                    rec.push(SymUse::plain(Sym::N(i)));
+                }
+                alts.push(mk(rec));
+                alts.push(mk(if empty_base { vec![] } else { it }));
+            }
+            4 => {
+                // sugar
+                let mut it = item(&mut c, i);
+                let idx = it.len() / 2;
+                if it.len() == 1 {
+                    let op = match c.pick(3) {
+                        0 => RepOp::Opt,
+                        1 => RepOp::Star,
+                        _ => RepOp::Plus,
+                    };
+                    let sep = if op != RepOp::Opt && c.pick(2) == 0 { Some(T_COMMA) } else { None };
+                    it[idx].rep = Some((op, sep));
+                    if c.pick(3) == 0 {
+                        it[idx] = named(it[idx].clone(), "items", false);
+                    }
+                }
+                let mut syms = vec![kw(i)];
+                syms.extend(it);
+                alts.push(mk(syms));
+            }
+            5 => {
+                // optional struct
+                let mut syms = vec![kw(i)];
+                syms.extend(item(&mut c, i));
+                syms.extend(item(&mut c, i));
+                alts.push(mk(syms));
+                alts.push(mk(vec![]));
+            }
+            6 => {
+                // directly recursive type
+                let it = item(&mut c, i);
+                alts.push(mk(vec![tinline(T_LPAR, false), SymUse::plain(Sym::N(i)), tinline(T_RPAR, false)]));
+                let mut second = vec![kw(i), SymUse::plain(Sym::N(i))];
+                second.extend(it.clone());
+                alts.push(mk(second));
+                alts.push(mk(it));
+            }
+            7 => {
+                // bool assignment
+                let mut syms = vec![kw(i), named(tinline(T_BANG, false), "flag", true)];
+                syms[1].rep = Some((RepOp::Opt, None));
+                syms.extend(item(&mut c, i));
+                alts.push(mk(syms));
+            }
+            8 => {
+                // plain reference
+                alts.push(mk(item(&mut c, i)));
+            }
+            9 => {
+                // enum with struct variants, plain variant and kinds
+                let mut a1 = vec![kw(i)];
+                a1.extend(item(&mut c, i));
+                let mut a2 = vec![kw(i + 1)];
+                a2.extend(item(&mut c, i));
+                a2.extend(item(&mut c, i));
+                let mut x1 = mk(a1);
+                let mut x2 = mk(a2);
+                if c.pick(2) == 0 {
+                    x1.meta.kind = Some(AST_KINDS[2].to_string());
+                    x2.meta.kind = Some(AST_KINDS[3].to_string());
+                }
+                alts.push(x1);
+                alts.push(x2);
+                alts.push(mk(vec![kw(i + 2)]));
+            }
+            11 => {
+                // choice-name de-duplication: two references to each of two rules, preferring a
+                // pair whose names are related by a digit suffix (B / B1, C / C1, B1 / B11)
+                let mut pair = (later_rules[0], later_rules[1]);
+                'outer: for a in &later_rules {
+                    for b in &later_rules {
+                        if a != b && names[*b].starts_with(names[*a].as_str()) && names[*b].len() == names[*a].len() + 1 {
+                            pair = (*a, *b);
+                            break 'outer;
+                        }
+                    }
+                }
+                for (k, r) in [pair.0, pair.0, pair.1, pair.1].iter().enumerate() {
+                    alts.push(mk(vec![kw(i + k), SymUse::plain(Sym::N(*r))]));
+                }
+            }
+            _ => {
+                // same symbol several times (field name de-duplication) + optional tail
+                let mut syms = vec![kw(i), tsym(T_NUM), tsym(T_NUM), tsym(T_ID)];
+                if c.pick(2) == 0 {
+                    let mut o = tsym(T_ID);
+                    o.rep = Some((RepOp::Opt, None));
+                    syms.push(tinline(T_COLON, true));
+                    syms.push(o);
+                }
+                alts.push(mk(syms));
+            }
+        }
+        rules.push(RuleSpec { name: names[i].clone(), annotation, meta: Meta::default(), alts });
+    }
+    // statements: one per body rule (some left unreachable)
+    let mut stmt_alts = vec![];
+    for i in first_body..total {
+        if i > first_body && c.pick(6) == 0 {
+            continue; // unreachable unless referenced by another rule
+        }
+        stmt_alts.push(AltSpec {
+            syms: vec![tsym(T_KW0 + ((i + 3) % 8)), tsym(T_BANG), SymUse::plain(Sym::N(i)), tsym(T_SEMI)],
+            meta: Meta::default(),
+        });
+    }
+    rules[1].alts = stmt_alts;
+    let mut s_use = SymUse::plain(Sym::N(1));
+    s_use.rep = Some((if c.pick(2) == 0 { RepOp::Plus } else { RepOp::Star }, None));
+    rules[0].alts = vec![AltSpec { syms: vec![s_use], meta: Meta::default() }];
+    GrammarSpec { terms, rules, layout: None }
+}
+
+pub fn g_ast() -> impl Strategy<Value = Vec<u16>> {
+    proptest::collection::vec(any::<u16>(), 20..90)
+}
